@@ -266,7 +266,7 @@ def main():
     man = {
         "version": 1,
         "setup_cmd": "./check --setup",
-        "hooks": {"guard": "GOLDILOCKS_VERIF", "enable": "-DGOLDILOCKS_VERIF (only the C12 footprint hooks; none committed yet)",
+        "hooks": {"guard": "GOLDILOCKS_VERIF", "enable": "no hook exists: the checks build /repo's sources unchanged (the guard name GOLDILOCKS_VERIF is reserved, never defined)",
                   "baseline_off_cmd": "cd /repo && make testcpu && ./testcpu", "source_commits": [], "add_only": True},
         "engines": [{"name": "lean4-proof+correspondence", "path": "check",
                      "serves_properties": [c["property_id"] for c in checks],
